@@ -214,6 +214,11 @@ cdef class cyBQM_template(cyQMBase):
             raise ValueError("quadratic vectors should be equal length")
         cdef Py_ssize_t length = irow.shape[0]
 
+        cdef Py_ssize_t i
+        for i in range(length):
+            if irow[i] < 0 or icol[i] < 0:
+                raise ValueError("variable indices must be non-negative")
+
         if length:
             if self.variables._is_range():
                 self.cppbqm.add_quadratic_from_coo(&irow[0], &icol[0], &qdata[0], length)
@@ -283,6 +288,11 @@ cdef class cyBQM_template(cyQMBase):
         if not irow.shape[0] == icol.shape[0] == qdata.shape[0]:
             raise ValueError("quadratic vectors should be equal length")
         cdef Py_ssize_t length = irow.shape[0]
+
+        cdef Py_ssize_t i
+        for i in range(length):
+            if irow[i] < 0 or icol[i] < 0:
+                raise ValueError("variable indices must be non-negative")
 
         if length:
             bqm.cppbqm.add_quadratic_from_coo(&irow[0], &icol[0], &qdata[0], length)
